@@ -217,9 +217,12 @@ class Reporter:
     def violation(self, cls, replay):
         """cls: classification (call site / shape / fault kind) used for known-finding matching."""
         for f in self.findings:
-            if all(cls.get(k) == v for k, v in f["match"].items()):
+            if all((cls.get(k) in v) if isinstance(v, list) else (cls.get(k) == v) for k, v in f["match"].items()):
                 self.known_hits.setdefault(f["id"], (f, 0))
                 self.known_hits[f["id"]] = (f, self.known_hits[f["id"]][1] + 1)
+                if os.environ.get("VERIF_DUMP_KNOWN"):
+                    with open(os.environ["VERIF_DUMP_KNOWN"], "a") as fh:
+                        fh.write(json.dumps({"id": f["id"], "cls": cls}, sort_keys=True) + "\n")
                 return
         self.violations.append((cls, replay))
 
